@@ -45,9 +45,6 @@ func C01_select() {
 	sym.Budget(3_000_000)
 	res := root.ResolveString(doc, "", nil)
 	sym.Observe("res", res)
-	if sym.Known("C01-subselections-not-merged", sh.hasMergedObjects("Query", sh.sels)) {
-		return
-	}
 	_, hasErr := res["errors"]
 	sym.Assert(!hasErr, "valid request has no errors")
 	want := sh.exec(q, sh.sels, 0)
